@@ -448,6 +448,7 @@ type Contract struct {
 	File           string
 	Requires       []Clause
 	Domain         []Clause // domain of the functional clauses: assumed only when proving them, never required of callers
+	Shape          []Clause // what a dependency's typing guarantees about an input: assumed for every obligation kind (also part of Domain)
 	Ensures        []Clause
 	Assigns        []string // raw place strings; nil = unspecified
 	HasAssign      bool
@@ -627,7 +628,7 @@ func (S *Specs) LoadFile(path string, extern bool) error {
 				return fail(fmt.Errorf("prop outside func"))
 			}
 			cur.Props = append(cur.Props, strings.Fields(strings.ReplaceAll(rest, ",", " "))...)
-		case "requires", "ensures", "domain":
+		case "requires", "ensures", "domain", "shape":
 			if cur == nil {
 				return fail(fmt.Errorf("%s outside func", kw))
 			}
@@ -640,6 +641,9 @@ func (S *Specs) LoadFile(path string, extern bool) error {
 				cur.Requires = append(cur.Requires, c)
 			case "domain":
 				cur.Domain = append(cur.Domain, c)
+			case "shape":
+				cur.Domain = append(cur.Domain, c)
+				cur.Shape = append(cur.Shape, c)
 			default:
 				cur.Ensures = append(cur.Ensures, c)
 			}
